@@ -132,6 +132,12 @@ pub fn main(args: &[String]) {
     let mut done = 0;
     for (i, c) in steps.iter().enumerate() {
         if i > 0 {
+            // the environment moved the facade's maximum since the last reconfiguration
+            if let Some(d) = c.get("drift").and_then(|d| d.as_i64()) {
+                if d >= 0 {
+                    log::set_max_level(level_filter(d));
+                }
+            }
             match &handle {
                 Some(h) => h.set_config(build_cfg(c, &counters)),
                 None => break, // init_raw_config returns no handle
